@@ -239,11 +239,17 @@ impl<'a> Judge<'a> {
             }
             match e {
                 Ev::Manual(n) => {
-                    // (may be transiently negative while a line that opens a brace is still unfinished)
+                    // indent()/deindent() in the middle of a line: the brace effects of that line and
+                    // the call do not commute once the level saturates at zero, so whole-line
+                    // nesting is not defined for the rest of the sequence
+                    if !self.cur.is_empty() {
+                        self.stop("indent()/deindent() called in the middle of a line");
+                    }
                     self.d += n;
                     self.stats.manual += 1;
-                    if self.d < 0 && self.cur.is_empty() {
+                    if self.d < 0 {
                         self.stop("oracle depth negative after deindent");
+                        self.d = 0;
                     }
                 }
                 Ev::Frag { text, lit, .. } => {
@@ -1059,7 +1065,7 @@ fn main() {
          distinct = sequences (by op kinds + fragment token-class skeleton) in which at least 2 output lines were judged for indentation",
     );
     rep.assume("input alphabet excludes \\r; deindent is clamped to the current level; append_src is only used with whole lines at a line start");
-    rep.assume("reading (2) is not judged after the first line where a fragment boundary separates a brace/comment token from its line edge, after brace underflow, or after append_src at non-zero depth");
+    rep.assume("reading (2) is not judged after the first line where a fragment boundary separates a brace/comment token from its line edge, after brace underflow, after indent()/deindent() called in the middle of a line, or after append_src at non-zero depth");
     if let Some(i) = only_case(&args) {
         let mut rng = corelib_mon::case_rng(seed, 25, i);
         run_case(&mut rng, i, &mut rep, seed);
